@@ -14,6 +14,8 @@ import (
 	"crypto/tls"
 	"encoding/json"
 	"fmt"
+	"github.com/relex/gotils/promexporter/promreg"
+	"github.com/relex/slog-agent/buffer/hybridbuffer"
 	"io"
 	"net"
 	"net/http"
@@ -439,6 +441,12 @@ func (e *childEnv) runCase(id string, doc *yaml.Node, skip *yaml.Node, real bool
 		return res
 	}
 
+	// Disk state left by an earlier run with another configuration: queue directories whose ids have fewer and more key values
+	// than this configuration's orchestration keys, and an id that is no id at all - made with the product's own buffer, each
+	// holding one chunk file of either output type. An accepted configuration must start on them (they are to be ignored).
+	if e.seq%3 == 0 {
+		guard("plant-leftovers", func() { plantLeftoverQueues(dir) })
+	}
 	stats := &runStats{}
 	var loader *run.Loader
 	var orc base.Orchestrator
@@ -560,4 +568,22 @@ func trimStack(s string) string {
 		}
 	}
 	return strings.Join(out, "\n")
+}
+
+// plantLeftoverQueues creates, under every redirected buffer root of the case directory, leftover queue directories with
+// foreign ids through hybridbuffer itself.
+func plantLeftoverQueues(caseDir string) {
+	for i := 0; i < 4; i++ {
+		root := filepath.Join(caseDir, fmt.Sprintf("buf%d", i))
+		for _, id := range []string{"error", "a,b,c,d,e,f,g", ",,", "x\\"} {
+			cfg := hybridbuffer.Config{RootPath: root, MaxBufSize: 1 << 20}
+			cfg.Type = "hybridBuffer"
+			mf := promreg.NewMetricFactory("c16plant_", nil, nil)
+			buf := cfg.NewBufferer(logger.Root(), id, func(string) bool { return true }, mf, false)
+			buf.Start()
+			buf.Accept(base.LogChunk{ID: "1700000000000000001-00000000.ff", Data: []byte("x")})
+			buf.Accept(base.LogChunk{ID: "1700000000000000002-00000000.dd", Data: []byte("x")})
+			buf.Destroy()
+		}
+	}
 }
